@@ -374,6 +374,47 @@ impl FrameEncoder {
 //@@ end
 }
 
+// ---- every other frame (Encoder<Frame> for FrameEncoder): header, then the performative ----
+macro_rules! performative {
+    ($($n:ident),*) => { verus!{ $(
+        #[verifier::external_body]
+        pub struct $n { _p: u8 }
+        impl $n {
+            /// wire encoding of this performative (serde_amqp derive output): a function of its fields only
+            pub uninterp spec fn penc(&self) -> Seq<u8>;
+            #[verifier::external_body]
+            pub fn serialize<'a>(&self, s: &mut Serializer<'a>) -> (r: Result<(), SerError>)
+                ensures r is Ok ==> final(s).writer.buf@ == old(s).writer.buf@ + self.penc(), *final(final(s).writer.buf) == *final(old(s).writer.buf),
+            { unimplemented!() }
+        }
+    )* } }
+}
+performative!(Open, Begin, Attach, Flow, Disposition, Detach, End, Close);
+pub enum FrameBody { Open(Open), Begin(Begin), Attach(Attach), Flow(Flow), Transfer { performative: Transfer, payload: Payload }, Disposition(Disposition), Detach(Detach), End(End), Close(Close), Empty }
+pub struct Frame { pub channel: u16, pub body: FrameBody }
+/// frames::Error (`#[from] serde_amqp::Error`)
+pub enum FrameError { Ser(SerError), Other }
+pub fn ser_into_frame_error(e: SerError) -> (r: FrameError) ensures r == FrameError::Ser(e) { FrameError::Ser(e) }
+/// what one frame contributes to the byte stream handed to the length-delimited codec (which prepends the 4 size octets: unit TRANSPORT)
+pub open spec fn frame_octets(maxb: int, f: Frame) -> Seq<u8> {
+    match f.body {
+        FrameBody::Open(p) => header(f.channel) + p.penc(), FrameBody::Begin(p) => header(f.channel) + p.penc(), FrameBody::Attach(p) => header(f.channel) + p.penc(),
+        FrameBody::Flow(p) => header(f.channel) + p.penc(), FrameBody::Disposition(p) => header(f.channel) + p.penc(), FrameBody::Detach(p) => header(f.channel) + p.penc(),
+        FrameBody::End(p) => header(f.channel) + p.penc(), FrameBody::Close(p) => header(f.channel) + p.penc(),
+        FrameBody::Transfer { performative, payload } => flatten(f.channel, expected(maxb, performative, payload@)),
+        FrameBody::Empty => header(f.channel),
+    }
+}
+impl FrameEncoder {
+//@@ fn file=fe2o3-amqp/src/frames/amqp.rs impl=`impl Encoder<Frame> for FrameEncoder` name=encode
+//@@ ret Result<(), FrameError>
+//@@ subst `use serde_amqp::ser::Serializer;` => `` rule=R6
+//@@ subst `.map_err(Into::into)` => `.map_err(|e: SerError| -> (o: FrameError) ensures o == FrameError::Ser(e) { ser_into_frame_error(e) })` rule=R17
+//@@ spec
+    ensures
+        r is Ok ==> final(dst)@ == old(dst)@ + frame_octets(old(self).max_frame_body_size as int, item),      // [C06.frame.layout] every frame handed to the codec is the 4 header octets that follow the size (doff = 2, type = AMQP, the frame's channel big-endian) followed by exactly the encoding of ITS performative -- an empty frame (heartbeat) is the header alone, a transfer is the frame sequence of [C06.split.exact] -- appended after whatever the buffer already held
+//@@ end
+}
 
 } // verus!
 fn main() {}
